@@ -28,7 +28,7 @@ type pkMon struct {
 func newPkMon(h *pkH, r *Run) *pkMon { return &pkMon{h: h, r: r, released: map[string]int{}} }
 
 var pkShrunk = map[string]bool{} // signatures already minimised in this process
-var pkShrinkBudget = 500        // replays the shrinker may still run
+var pkShrinkBudget = 500         // replays the shrinker may still run
 
 func (m *pkMon) violate(sig, detail string) {
 	tr := append([]string(nil), m.trace...)
